@@ -1,5 +1,5 @@
 (* C09 — failure contract of the Readers. *)
-From V Require Import Base.Prelude Base.Prog Base.ProgThms Flate.Spec Flate.Thms XFlate.Reader XFlate.Thms Life.ReadLoop.
+From V Require Import Base.Prelude Base.Prog Base.ProgThms Flate.Spec Flate.Thms XFlate.Reader XFlate.Thms Life.ReadLoop Flate.Safe Flate.Fuel.
 
 (* the error a Read reports is the decoder's own outcome (wrapped by the
    package), reported only when everything decoded has been delivered *)
@@ -49,3 +49,16 @@ Theorem xflate_reader_error_sticky : forall s n e,
   r_err s = Some e -> XFlate.Reader.read s n = (([], Some e), s).
 Proof. exact XFlate.Thms.read_sticky. Qed.
 Print Assumptions xflate_reader_error_sticky.
+
+(* TOTALITY of the RFC 1951 decoder model: on EVERY input the decoder, with the loop budget
+   [inflate] itself chooses, ends in success, UnexpectedEOF or Corrupted - never in a panic
+   (window copy out of range), never with its loop budget exhausted (every continuing loop
+   iteration consumes an input bit; complete codes have no zero length, so no decoding tree
+   is a bare leaf), never with Invalid/Internal. *)
+Theorem flate_error_classes : forall input,
+  match ir_err (inflate input) with
+  | None => True
+  | Some e => e = EUEOF \/ e = ECorrupted
+  end.
+Proof. exact inflate_total. Qed.
+Print Assumptions flate_error_classes.
